@@ -9,8 +9,8 @@ import z3
 from . import sorts as S
 from . import fuel as FUEL
 
-Z3_TIMEOUT_MS = int(os.environ.get('PYVC_Z3_TIMEOUT_MS', '20000'))
-CVC5_TIMEOUT_MS = int(os.environ.get('PYVC_CVC5_TIMEOUT_MS', '20000'))
+Z3_TIMEOUT_MS = int(os.environ.get('PYVC_Z3_TIMEOUT_MS', '10000'))
+CVC5_TIMEOUT_MS = int(os.environ.get('PYVC_CVC5_TIMEOUT_MS', '10000'))
 CVC5 = '/usr/bin/cvc5'
 
 
@@ -120,10 +120,10 @@ def discharge(axioms, obl, seed=0, want_model=True, cross=False, quick_only=Fals
     if r == z3.sat:
         model = s.model()
     elif not uses_defs:
-        for n in (2, 3, 4, 5):
-            sizes = {S.StrS: n + 1, S.ObjS: n}
+        for n in (3, 5):
+            sizes = {S.StrS: n + 1, S.ObjS: 2}
             s2 = mk_solver(list(axioms) + finite_closure(None, sizes), obl.pc, obl.goal, seed,
-                           timeout=8000)
+                           timeout=4000)
             if s2.check() == z3.sat:
                 model = s2.model()
                 res['finite_universe'] = n
